@@ -628,10 +628,9 @@ class Selector(cssutils.util.Base2):
         for item in self.seq:
             type_, val = item.type, item.value
             if (
-                type_.endswith('-selector')
-                or type_ == 'universal'
+                (type_.endswith('-selector') or type_ == 'universal')
                 and isinstance(val, tuple)
-                and val[0] not in (None, '*')
+                and val[0] not in (None, cssutils._ANYNS)
             ):
                 uris.add(val[0])
         return uris
